@@ -241,13 +241,15 @@ for _k, _v in ADDED4.items():
     ADDED[_k] = (ADDED.get(_k, "") + " " + _v).strip()
 
 ADDED5 = {
-    "C04": "Session 5: every PackInflater consumer outside the object stores (bundles) verifies the trailer and materialises all objects before the first add_object.",
+    "C04": "Session 5: every PackInflater consumer outside the object stores (bundles) verifies the trailer and materialises all objects before the first add_object; validation before on-disk visibility (known finding).",
     "C05": "Session 5: v2 shallow-info section consumed before the side-band stream (both repair shapes accepted); the client's shallow lines bound what a have promises.",
     "C08": "Session 5: R08.3 compares only reads of the ref the compare-and-swap updates.",
     "C09": "Session 5: objects before the shallow boundary moves (install precedes every update_shallow; the in-process walker's callback re-bound); a ref is written once, with the commit created for it (no parking value).",
     "C10": "Session 5: gc roots = the per-worktree refs of every worktree; the grace period re-applied after the long steps, right before destroying.",
     "C11": "Session 5: the index loader stores exact keys (never through the mutator that redirects to a normalised key).",
-    "C16": "Session 5: every ref-file write refuses names colliding with a PACKED ref, upwards and downwards.",
+    "C07": "Session 5: reftable tables unlinked only after the tables.list that no longer names them has been committed.",
+    "C14": "Session 5: every caller asks generate_commit_graph for a closed graph (known finding: reachable=False, pinned by a test).",
+    "C16": "Session 5: every ref-file write refuses names colliding with a PACKED ref, upwards and downwards; reftable suffix_and_type written and read with one total varint codec.",
 }
 for _k, _v in ADDED5.items():
     ADDED[_k] = (ADDED.get(_k, "") + " " + _v).strip()
